@@ -257,7 +257,18 @@ func (e *endpoint) awaitDelivered() bool {
 // applyChange performs a SETTINGS change between phases.
 func (s *Session) applyChange(c Change) bool {
 	e := s.ep[c.E]
-	if c.Lower {
+	if c.Lower && c.NoDrain {
+		// probe: everything the windows allow has arrived, the rest is queued in the relay
+		if !s.wait(func() bool {
+			var n int64
+			for _, t := range s.tr[1-e.idx] {
+				n += t.dataRecv
+			}
+			return n == c.WaitRecv
+		}, s.stuckMissing("DATA")) {
+			return false
+		}
+	} else if c.Lower {
 		// lower only when nothing is queued or in flight toward e
 		if !e.ample() || !e.awaitDelivered() {
 			return false
